@@ -394,9 +394,8 @@ func (f *Func) fitSignatureWith(argv []Value, useCtx bool) ([]Value, *Err) {
 	if isVar {
 		rest := make([]interface{}, 0, n-pc+1)
 		for _, a := range argv[pc-1:] {
-			if IsUndef(a) {
-				rest = append(rest, nil)
-			} else {
+			// an array has no place for 'no value' (as in an array constructor)
+			if !IsUndef(a) {
 				rest = append(rest, a)
 			}
 		}
